@@ -20,7 +20,7 @@ import (
 	"strings"
 )
 
-func init() { extraSections = append(extraSections, factsLife) }
+func init() { extraSections = append(extraSections, section{"life", factsLife}) }
 
 // calls inside stop that have no code of their own
 var stopIgnored = map[string]bool{
